@@ -535,9 +535,50 @@ def pers_load_rule(ctx):
     return res
 
 
+def pers_closure_rule(ctx):
+    """PERS-CLOSURE.  A module handed to a constructor travels in the state dict only if it is *registered*: stored
+    as an attribute (or in an nn container).  Captured in a lambda / nested function / functools.partial that is
+    stored instead, it is invisible to state_dict(), parameters(), .to() and train() -- a strict load into a
+    freshly built model succeeds and the fresh model keeps its own random weights.  Decided per module class:
+    a constructor parameter that the constructor treats as a module (an `isinstance(p, nn.Module)` check, or a
+    sibling path that stores it as an attribute) is not referenced inside a lambda / def / partial that is
+    assigned to an attribute."""
+    p = ctx.p
+    res = RuleResult("PERS-CLOSURE", "no constructor stores a closure (lambda / nested def / partial) over a module-valued parameter in place of the module itself")
+    n = 0
+    for cls in p.all_classes():
+        if not cls.is_nn_module():
+            continue
+        init = cls.methods.get("__init__")
+        if init is None:
+            continue
+        params = {a for a, _ in init.params()}
+        moduleish = set()
+        for x in ast.walk(init.node):
+            if isinstance(x, ast.Call) and isinstance(x.func, ast.Name) and x.func.id == "isinstance" and len(x.args) == 2 and isinstance(x.args[0], ast.Name) and x.args[0].id in params and "Module" in norm_text(x.args[1]):
+                moduleish.add(x.args[0].id)
+        if not moduleish:
+            continue
+        n += 1
+        for a in ast.walk(init.node):
+            if not (isinstance(a, ast.Assign) and any(isinstance(t, ast.Attribute) and isinstance(t.value, ast.Name) and t.value.id == "self" for t in a.targets)):
+                continue
+            closures = [c for c in ast.walk(a.value) if isinstance(c, ast.Lambda)] + [c for c in ast.walk(a.value) if isinstance(c, ast.Call) and norm_text(c.func) in ("functools.partial", "partial")]
+            if isinstance(a.value, ast.Name):
+                closures += [d for d in ast.walk(init.node) if isinstance(d, ast.FunctionDef) and d is not init.node and d.name == a.value.id]
+            for c in closures:
+                captured = sorted({q.id for q in ast.walk(c) if isinstance(q, ast.Name) and q.id in moduleish} - ({x.arg for x in c.args.args} if isinstance(c, (ast.Lambda, ast.FunctionDef)) else set()))
+                if captured:
+                    res.fail(Finding("PERS-CLOSURE", init.module, init.qualname, a, "%s stores a closure over the module-valued argument `%s` (`%s`) instead of the module: it is not a registered sub-module, so its parameters are missing from state_dict() / parameters() / .to() / train(); loading the state dict of a trained model into a freshly built one leaves the fresh model's own random `%s` in place, silently" % (init.qualname, captured[0], norm_text(a)[:70], captured[0]), construct="closure over %s in %s" % (captured[0], init.qualname)))
+    res.ok("%d constructors with module-valued parameters: each is stored as an attribute, none only inside a closure" % n, nontrivial=False)
+    if n < 1:
+        raise AnalysisIncomplete("PERS-CLOSURE: no constructor with an isinstance(.., nn.Module) check (Flow.__init__ has one on the pinned tree)")
+    return res
+
+
 register(
     "C15",
-    [pers_rng_rule, pers_mut_rule, pers_np_rule, pers_call_rule, pers_stale_rule, pers_shape_rule, pers_hist_rule, pers_load_rule],
+    [pers_rng_rule, pers_mut_rule, pers_np_rule, pers_call_rule, pers_stale_rule, pers_shape_rule, pers_hist_rule, pers_load_rule, pers_closure_rule],
     "Dataflow over constructors and evaluation paths. PERS-RNG: every nn.Module constructor is abstractly interpreted with a "
     "taint domain in which random sources (torch.rand*, randperm, randint, multinomial, init.uniform_/normal_..., np.random, and "
     "repository helpers that return them, found interprocedurally) label their results RNG; every store of an RNG-tainted value "
